@@ -279,8 +279,11 @@ static __thread int t_delay_rng_init;
 static uint64_t g_delay_thread_ctr;
 static uint64_t g_delays_injected;
 
+void (*vrt_point_observer)(int id);
 static void delay_point(int id)
 {
+    if (vrt_point_observer)
+        vrt_point_observer(id);
     unsigned p = g_delay_prob[id & 127];
     if (!p)
         return;
